@@ -72,7 +72,7 @@ func (p plainImm) count() int           { return p.c.Count() }
 func (p plainImm) length() int          { return p.c.Len() }
 func (p plainImm) numBytes() int        { return p.c.NumBytes() }
 func (p plainImm) countImmune() int     { return p.c.CountImmune() }
-func (p plainImm) keys() [][]byte       { return p.c.Keys() }
+func (p plainImm) keys() [][]byte       { return takeKeys(p.c.Keys()) }
 func (p plainImm) forEach() map[string][]byte {
 	m := map[string][]byte{}
 	p.c.ForEachItem(func(k []byte, v interface{}) { m[string(k)] = v.([]byte) })
@@ -106,7 +106,7 @@ func (p crossImm) count() int           { return p.c.Count() }
 func (p crossImm) length() int          { return p.c.Len() }
 func (p crossImm) numBytes() int        { return p.c.NumBytes() }
 func (p crossImm) countImmune() int     { return p.c.CountImmune() }
-func (p crossImm) keys() [][]byte       { return p.c.Keys() }
+func (p crossImm) keys() [][]byte       { return takeKeys(p.c.Keys()) }
 func (p crossImm) forEach() map[string][]byte {
 	m := map[string][]byte{}
 	p.c.ForEachTransaction(func(k []byte, w *txcache.WrappedTransaction) { m[string(k)] = w.Tx.GetData() })
